@@ -241,6 +241,14 @@ def _cat_case(A, np, R, values, key, full=True):
             else:
                 for sl in ((slice(None), slice(1, None)), (0,), (slice(None, None, -1), slice(None, None, 2))):
                     chk(c[sl], np.asarray(values)[sl], 'ndview:%r' % (sl,))
+                # views with another memory layout than their shape suggests (they inherit the parent's categories and look their codes up)
+                chk(c.T, np.asarray(values).T, 'ndview:transposed')
+                chk(c.T[::-1], np.asarray(values).T[::-1], 'ndview:transposed-reversed')
+                chk(np.swapaxes(c, 0, -1), np.swapaxes(np.asarray(values), 0, -1), 'ndview:swapaxes')
+                fresh2 = A.categorical_ndarray(values)
+                chk(fresh2.T, np.asarray(values).T, 'ndview:transposed-before-parent-codes')
+                given = A.categorical_ndarray(np.asfortranarray(values), categories=np.array(sorted(set(flat.tolist()))))
+                chk(given, np.asarray(values), 'fortran-order-with-given-categories')
             chk(c.copy(), np.asarray(values), 'copy')
             if values.ndim == 1 and values.size > 1:
                 # arrays derived with the parent's shape but another element order (the parent's codes are already computed here)
